@@ -210,6 +210,11 @@ Proof.
     apply IH. exact Hm.
 Qed.
 
+Lemma forallb_map : forall {A B} (f : B -> bool) (g : A -> B) l, forallb f (map g l) = forallb (fun x => f (g x)) l.
+Proof. intros A B f g l. induction l; cbn; congruence. Qed.
+Lemma forallb_ext' : forall {A} (f g : A -> bool) l, (forall x, f x = g x) -> forallb f l = forallb g l.
+Proof. intros A f g l H. induction l; cbn; [reflexivity|]. rewrite H, IHl. reflexivity. Qed.
+
 Lemma map_strip_comm : forall (f : gobj -> gobj) rm, (forall o, strip (f o) = f (strip o)) ->
   map strip (map f rm) = map f (map strip rm).
 Proof. intros f rm H. rewrite !map_map. apply map_ext. exact H. Qed.
@@ -395,13 +400,23 @@ Proof.
   cbn [bind rstrip res_map map]. rewrite A, A2. reflexivity.
 Qed.
 
+Lemma hash_ids_unique_strip : forall out, hash_ids_unique out = hash_ids_unique (map strip out).
+Proof.
+  intro out. unfold hash_ids_unique. rewrite forallb_map. apply forallb_ext'. intro o.
+  change (g_hash (strip o)) with (g_hash o). change (g_secret (strip o)) with (g_secret o).
+  change (cur_id (strip o)) with (cur_id o). rewrite indices_cur_strip. reflexivity.
+Qed.
+
 (* editing only label/annotation directives anywhere in the tree changes nothing but labels and annotations:
    same outcome class, same names (hence suffixes), namespaces, data, binaryData, types *)
 Theorem build_meta_invariant : forall l l', layer_sim l l' -> rstrip (build l) = rstrip (build l').
 Proof.
   intros l l' H. unfold build. pose proof (accumulate_sim l l' H) as A. apply rstrip_inv in A.
   destruct (accumulate l) as [rm| | |], (accumulate l') as [rm'| | |]; try contradiction; try reflexivity.
-  cbn [bind]. apply mapM_add_hash_sim. exact A.
+  cbn [bind]. pose proof (mapM_add_hash_sim rm rm' A) as B. apply rstrip_inv in B.
+  destruct (mapM add_hash rm) as [out| | |], (mapM add_hash rm') as [out'| | |]; try contradiction; try reflexivity.
+  cbn [bind]. rewrite (hash_ids_unique_strip out), (hash_ids_unique_strip out'), B.
+  destruct (hash_ids_unique (map strip out')); [|reflexivity]. cbn [rstrip res_map]. rewrite B. reflexivity.
 Qed.
 
 (* non-vacuity: two trees that differ in every kind of label/annotation directive *)
@@ -415,3 +430,172 @@ Example build_meta_invariant_example :
   layer_sim (inv_tree [("app", "x")] [("g", "1")] [("o", "2")]) (inv_tree [("app", "y"); ("z", "1")] [] [("o", "3")]) /\
   exists o, build (inv_tree [("app", "x")] [("g", "1")] [("o", "2")]) = Ok [o] /\ g_labels o = [("app", "x"); ("g", "1"); ("o", "2")].
 Proof. split; [cbn; repeat split|]. eexists. vm_compute. split; reflexivity. Qed.
+
+
+(* ------------------------------------------------------------------ a key lives in only one of data / binaryData *)
+
+Definition disjoint_keys (o : gobj) : Prop :=
+  forall k v w, dict_get k (dict_of_opt (g_data o)) = Some v -> dict_get k (g_bin o) = Some w -> False.
+
+Lemma dict_get_in : forall k d v, dict_get k d = Some v -> In k (map fst d).
+Proof.
+  intros k d v. induction d as [|[k1 v1] t IH]; cbn; [discriminate|].
+  destruct (String.eqb_spec k k1); [auto|]. intro H. right. auto.
+Qed.
+
+Lemma dict_get_notin_none : forall k d, ~ In k (map fst d) -> dict_get k d = None.
+Proof.
+  intros k d H. destruct (dict_get k d) eqn:E; [|reflexivity]. exfalso. apply H. eapply dict_get_in. exact E.
+Qed.
+
+Lemma dict_get_rev_some : forall k l v, dict_get k (rev l) = Some v -> exists w, dict_get k l = Some w.
+Proof.
+  intros k l v H. apply dict_get_in in H. rewrite map_rev in H. apply in_rev in H.
+  destruct (dict_get k l) eqn:E; [eauto|]. exfalso. exact (dict_get_none_notin _ _ E H).
+Qed.
+
+Lemma merge_data_disjoint : forall r old,
+  disjoint_keys r -> disjoint_keys (merge_data (copy_merge_meta r old) old).
+Proof.
+  intros r old Hr k v w Hd Hb.
+  rewrite merge_data_get in Hd.
+  cbn [merge_data copy_merge_meta g_bin g_data] in Hb.
+  rewrite dict_get_override, dict_get_without in Hb.
+  destruct (dict_get k (rev (g_bin r))) as [w'|] eqn:Eb.
+  - destruct (dict_get_rev_some _ _ _ Eb) as [w2 Eb2].
+    destruct (dict_get k (rev (dict_of_opt (g_data r)))) as [v'|] eqn:Ed.
+    + destruct (dict_get_rev_some _ _ _ Ed) as [v2 Ed2]. exact (Hr k v2 w2 Ed2 Eb2).
+    + rewrite Eb2 in Hd. discriminate.
+  - (* the old binary entry survives only when the merged data does not define the key *)
+    assert (Hm : dict_get k (dict_override (dict_without (dict_of_opt (g_data old)) (g_bin r)) (dict_of_opt (g_data r))) = Some v).
+    { rewrite dict_get_override, dict_get_without. exact Hd. }
+    rewrite Hm in Hb. discriminate.
+Qed.
+
+Lemma copy_merge_meta_disjoint : forall r old, disjoint_keys r -> disjoint_keys (copy_merge_meta r old).
+Proof. intros r old H. exact H. Qed.
+
+Lemma Forall_replace_nth : forall {A} (P : A -> Prop) i x l, Forall P l -> P x -> Forall P (replace_nth i x l).
+Proof.
+  intros A P i x l H Hx. revert i. induction H as [|y t Hy Ht IH]; intros [|i]; cbn; constructor; auto.
+Qed.
+
+Lemma absorb_disjoint : forall rm r rm',
+  Forall disjoint_keys rm -> disjoint_keys r -> absorb rm r = Ok rm' -> Forall disjoint_keys rm'.
+Proof.
+  intros rm r rm' Hrm Hr H. unfold absorb in H.
+  set (ms := indices (matches_any (g_secret r) (cur_id r)) rm) in *.
+  destruct (absorb_action (List.length ms) (g_behavior r)) eqn:Ea; try discriminate.
+  - unfold rm_append in H. destruct (existsb _ rm); [discriminate|]. apply Ok_inj in H. subst.
+    apply Forall_app. split; [exact Hrm|constructor; [exact Hr|constructor]].
+  - destruct ms as [|i [|j t]]; try discriminate.
+    destruct (nth_error rm i) as [old|]; [|discriminate].
+    unfold rm_replace in H. destruct (indices _ rm) as [|i1 [|j1 t1]]; try discriminate.
+    cbn [bind fst snd] in H. destruct (Nat.eqb i1 i); [|discriminate]. apply Ok_inj in H. subst.
+    apply Forall_replace_nth; [exact Hrm|apply copy_merge_meta_disjoint; exact Hr].
+  - destruct ms as [|i [|j t]]; try discriminate.
+    destruct (nth_error rm i) as [old|]; [|discriminate].
+    unfold rm_replace in H. destruct (indices _ rm) as [|i1 [|j1 t1]]; try discriminate.
+    cbn [bind fst snd] in H. destruct (Nat.eqb i1 i); [|discriminate]. apply Ok_inj in H. subst.
+    apply Forall_replace_nth; [exact Hrm|apply merge_data_disjoint; exact Hr].
+Qed.
+
+Lemma make_generated_disjoint_keys : forall files g a r, make_generated files g a = Ok r -> disjoint_keys r.
+Proof.
+  intros files g a r H k v w Hd Hb.
+  eapply (make_generated_disjoint files g a r k H); eapply dict_get_in; eassumption.
+Qed.
+
+Lemma run_generators_disjoint : forall d gens rm rm',
+  Forall disjoint_keys rm -> run_generators d gens rm = Ok rm' -> Forall disjoint_keys rm'.
+Proof.
+  intros d gens. induction gens as [|a t IH]; intros rm rm' Hrm H; cbn [run_generators] in H.
+  - apply Ok_inj in H. subst. exact Hrm.
+  - destruct (make_generated _ _ a) as [o| | |] eqn:Em; cbn [bind] in H; try discriminate.
+    destruct (absorb rm o) as [rm1| | |] eqn:Ea; cbn [bind] in H; try discriminate.
+    eapply IH; [|exact H]. eapply absorb_disjoint; [exact Hrm| |exact Ea].
+    eapply make_generated_disjoint_keys. exact Em.
+Qed.
+
+(* a step that leaves data and binaryData alone *)
+Definition same_maps (o o' : gobj) : Prop := g_data o' = g_data o /\ g_bin o' = g_bin o.
+
+Lemma same_maps_disjoint : forall o o', same_maps o o' -> disjoint_keys o -> disjoint_keys o'.
+Proof. intros o o' [H1 H2] H k v w. rewrite H1, H2. apply H. Qed.
+
+Lemma Forall_map_same : forall (f : gobj -> gobj) rm, (forall o, same_maps o (f o)) ->
+  Forall disjoint_keys rm -> Forall disjoint_keys (map f rm).
+Proof.
+  intros f rm Hf H. induction H; cbn; constructor; auto. eapply same_maps_disjoint; eauto.
+Qed.
+
+Lemma ns_loop_disjoint : forall ns todo i rm rm',
+  Forall disjoint_keys rm -> ns_loop ns todo i rm = Ok rm' -> Forall disjoint_keys rm'.
+Proof.
+  intros ns todo. induction todo as [|todo IH]; intros i rm rm' Hrm H; cbn [ns_loop] in H.
+  - apply Ok_inj in H. subst. exact Hrm.
+  - destruct (nth_error rm i) as [o|] eqn:En; [|apply Ok_inj in H; subst; exact Hrm].
+    destruct (indices _ (replace_nth i _ rm)) as [|x [|y t]]; try discriminate.
+    eapply IH; [|exact H]. apply Forall_replace_nth; [exact Hrm|].
+    apply (same_maps_disjoint o); [split; reflexivity|].
+    rewrite Forall_forall in Hrm. apply Hrm. eapply nth_error_In. exact En.
+Qed.
+
+Lemma run_transformers_disjoint : forall d rm rm',
+  Forall disjoint_keys rm -> run_transformers d rm = Ok rm' -> Forall disjoint_keys rm'.
+Proof.
+  intros d rm rm' Hrm H. unfold run_transformers in H.
+  destruct (ns_transform (l_ns d) rm) as [r1| | |] eqn:En; cbn [bind] in H; try discriminate.
+  apply Ok_inj in H. subst.
+  assert (H1 : Forall disjoint_keys r1).
+  { unfold ns_transform in En. destruct (l_ns d); [apply Ok_inj in En; subst; exact Hrm|].
+    eapply ns_loop_disjoint; [exact Hrm|exact En]. }
+  unfold annos_transform, labels_transform, suffix_transform, prefix_transform.
+  apply Forall_map_same; [intro; split; reflexivity|].
+  apply Forall_map_same; [intro; split; reflexivity|].
+  destruct (l_suffix d), (l_prefix d); repeat (apply Forall_map_same; [intro; split; reflexivity|]); exact H1.
+Qed.
+
+Lemma rm_append_all_disjoint : forall l rm rm',
+  Forall disjoint_keys rm -> Forall disjoint_keys l -> rm_append_all rm l = Ok rm' -> Forall disjoint_keys rm'.
+Proof.
+  induction l as [|o t IH]; intros rm rm' Hrm Hl H; cbn [rm_append_all] in H.
+  - apply Ok_inj in H. subst. exact Hrm.
+  - inversion Hl as [|? ? Ho Ht]; subst.
+    unfold rm_append in H. destruct (existsb _ rm); [discriminate|]. cbn [bind] in H.
+    eapply IH; [|exact Ht|exact H]. apply Forall_app. split; [exact Hrm|constructor; [exact Ho|constructor]].
+Qed.
+
+Lemma accumulate_disjoint : forall l rm, accumulate l = Ok rm -> Forall disjoint_keys rm.
+Proof.
+  intro l. induction l as [bs d IH] using layer_ind'. intros rm H.
+  rewrite accumulate_eq in H. destruct (decl_empty (List.length bs) d); [discriminate|].
+  assert (B : forall acc acc', Forall disjoint_keys acc -> acc_bases bs acc = Ok acc' -> Forall disjoint_keys acc').
+  { clear H. induction bs as [|b t IHt]; intros acc acc' Hacc Hb; cbn [acc_bases] in Hb.
+    - apply Ok_inj in Hb. subst. exact Hacc.
+    - inversion IH as [|? ? P1 P2]; subst.
+      destruct (accumulate b) as [sub| | |] eqn:Es; cbn [bind] in Hb; try discriminate.
+      destruct (rm_append_all acc sub) as [acc1| | |] eqn:Ea; cbn [bind] in Hb; try discriminate.
+      eapply (IHt P2); [|exact Hb]. eapply rm_append_all_disjoint; [exact Hacc|apply P1; reflexivity|exact Ea]. }
+  destruct (acc_bases bs []) as [rm0| | |] eqn:E0; cbn [bind] in H; try discriminate.
+  destruct (run_generators d _ rm0) as [rm1| | |] eqn:E1; cbn [bind] in H; try discriminate.
+  eapply run_transformers_disjoint; [|exact H].
+  eapply run_generators_disjoint; [|exact E1]. eapply B; [constructor|exact E0].
+Qed.
+
+(* C06_keys_disjoint: in every build output no object has a key both in data and in binaryData *)
+Theorem build_keys_disjoint : forall l out, build l = Ok out -> Forall disjoint_keys out.
+Proof.
+  intros l out H. unfold build in H. destruct (accumulate l) as [rm| | |] eqn:Ea; cbn [bind] in H; try discriminate.
+  pose proof (accumulate_disjoint l rm Ea) as Hrm. clear Ea.
+  destruct (mapM add_hash rm) as [out'| | |] eqn:Em; cbn [bind] in H; try discriminate.
+  destruct (hash_ids_unique out'); [|discriminate]. apply Ok_inj in H. subst out'.
+  revert out Em.
+  induction Hrm as [|o t Ho Ht IH]; intros out H; cbn [mapM] in H.
+  - apply Ok_inj in H. subst. constructor.
+  - destruct (add_hash o) as [o'| | |] eqn:Eh; cbn [bind] in H; try discriminate.
+    destruct (mapM add_hash t) as [t'| | |]; cbn [bind] in H; try discriminate. apply Ok_inj in H. subst.
+    constructor; [|apply IH; reflexivity].
+    unfold add_hash in Eh. destruct (g_hash o); [|apply Ok_inj in Eh; subst; exact Ho].
+    destruct (hash_content (content_of o)); cbn [bind] in Eh; try discriminate. apply Ok_inj in Eh. subst. exact Ho.
+Qed.
